@@ -5,6 +5,9 @@
                kernel table tab[x][y] = value ([x |-> 0|1 exception, s |-> text]) obtained by
                calling the numeric kernel on plain numbers, and O = the evaluation of the
                composed object (node array, leaves carry values)
+     "lazy"  : a lazily evaluated composition: kinds / lengths / identities of the operands per argument
+               position, the kernel table over every tuple of operand leaves, how the composed object was
+               traversed (law, gen) and O = the outcome of every next() until the end(s)
      "range" : a range-law kernel applied to lattice arguments (units of 1/8)
      "inv"   : an inverse-pair function at the exact point k, its value and the round trip   *)
 EXTENDS Integers, Sequences, FiniteSets, TLC, Json, IOUtils
@@ -17,6 +20,7 @@ tvars == <<phase, ca, cb, ka, kb, args, tid, l>>
 
 Why(t) ==
     CASE t.ty = "lift" -> LiftWhy(t.ka, t.A, t.kb, t.B, t.tab, t.O, t.stopx)
+      [] t.ty = "lazy" -> LazyWhy(t.ops, t.tab, t.law, t.gen, t.O)
       [] t.ty = "range" -> RangeWhy(t.fn, t.a, t.r, t.r2)
       [] t.ty = "inv" -> InvWhy(t.fn, t.k, t.r, t.rt)
       [] OTHER -> "unknown-trace-type"
